@@ -61,6 +61,8 @@ def scenarios(ctx):
         w["opts"] = {"ped": bool(ped), "max_coverage": rng.choice([4, 5, 6, 8, 15])}
         if rng.random() < 0.25:
             PW.add_decoys(rng, w)
+        if rng.random() < 0.4:
+            w["phase_vcf"] = True          # phased VCF as a second phase input: preferred pseudo reads in the family selection
         scs.append({"kind": "pipeline", "world": w})
     return scs
 
